@@ -790,6 +790,54 @@ class Inliner:
         return st
 
 
+_PURE_TENSOR_METHODS = {"reshape", "view", "transpose", "conj", "unsqueeze", "squeeze", "flatten", "contiguous", "t", "permute", "size", "dim", "numel"}
+
+
+def _pure_before(expr: ast.AST, use: ast.Name) -> bool:
+    """everything `expr` evaluates before it reads `use` is free of effects and cannot be affected by a call: names, attribute loads,
+    constants and the shape methods of tensors.  (Moving a call from a preceding statement to that position then changes nothing.)"""
+    done = []
+
+    def pure(e) -> bool:
+        if isinstance(e, (ast.Name, ast.Constant)):
+            return True
+        if isinstance(e, ast.Attribute):
+            return pure(e.value)
+        if isinstance(e, ast.UnaryOp):
+            return pure(e.operand)
+        if isinstance(e, ast.Call) and isinstance(e.func, ast.Attribute) and e.func.attr in _PURE_TENSOR_METHODS and not e.keywords:
+            return pure(e.func.value) and all(pure(a) for a in e.args)
+        if isinstance(e, (ast.Tuple, ast.List)):
+            return all(pure(x) for x in e.elts)
+        return False
+
+    def walk(e) -> Optional[bool]:
+        """evaluation-order walk; True when `use` is reached with only pure things evaluated before, False when something impure precedes"""
+        if e is use:
+            return True
+        if isinstance(e, ast.Call):
+            parts = [e.func] + list(e.args) + [k.value for k in e.keywords]
+        elif isinstance(e, ast.Attribute):
+            parts = [e.value]
+        elif isinstance(e, ast.Subscript):
+            parts = [e.value, e.slice]
+        elif isinstance(e, ast.BinOp):
+            parts = [e.left, e.right]
+        elif isinstance(e, ast.UnaryOp):
+            parts = [e.operand]
+        elif isinstance(e, (ast.Tuple, ast.List)):
+            parts = list(e.elts)
+        else:
+            return None if not any(n_ is use for n_ in ast.walk(e)) else False
+        for p_ in parts:
+            if any(n_ is use for n_ in ast.walk(p_)):
+                return walk(p_)
+            if not pure(p_) and not (isinstance(p_, ast.Attribute) and pure(p_)):
+                return False
+        return None
+    return walk(expr) is True
+
+
 def _inline_local_predicates(tree: ast.Module, ref_locals: Optional[Dict[str, Set[str]]] = None) -> int:
     """A nested function with the body `return <expr>` (or a `name = lambda ..: <expr>`), bound once in its enclosing function and
     capturing only names that are bound once there, is substituted at its direct call sites `name(args)` in that function; the
@@ -806,7 +854,22 @@ def _inline_local_predicates(tree: ast.Module, ref_locals: Optional[Dict[str, Se
             elif n_ is not outer and isinstance(n_, _FUNCS):
                 binds[n_.name] = binds.get(n_.name, 0) + 1
         cands = {}
-        for st in outer.body:
+
+        def _own_stmts(block):
+            # the statements of the function itself, also inside with / if / try / loops (a closure is often defined inside a `with`)
+            for st_ in block:
+                yield st_, block
+                if isinstance(st_, _FUNCS + (ast.ClassDef,)):
+                    continue
+                for fld_ in ("body", "orelse", "finalbody"):
+                    b_ = getattr(st_, fld_, None)
+                    if isinstance(b_, list) and b_ and isinstance(b_[0], ast.stmt):
+                        yield from _own_stmts(b_)
+                for h_ in getattr(st_, "handlers", []) or []:
+                    yield from _own_stmts(h_.body)
+        holder = {}
+        for st, blk_ in _own_stmts(outer.body):
+            holder[id(st)] = blk_
             if isinstance(st, ast.FunctionDef) and not st.decorator_list and not st.args.vararg and not st.args.kwarg and not st.args.kwonlyargs \
                     and not st.args.defaults:
                 body = _body_without_doc(st)
@@ -820,7 +883,7 @@ def _inline_local_predicates(tree: ast.Module, ref_locals: Optional[Dict[str, Se
                     first = body[1].value
                     while isinstance(first, (ast.Call, ast.Attribute, ast.Subscript)):
                         first = first.func if isinstance(first, ast.Call) else first.value
-                    if len(reads) == 1 and first is reads[0] and tmp not in [a.arg for a in st.args.args]:
+                    if len(reads) == 1 and (first is reads[0] or _pure_before(body[1].value, reads[0])) and tmp not in [a.arg for a in st.args.args]:
                         merged = _Subst({tmp: body[0].value}, {}).visit(copy.deepcopy(body[1].value))
                         cands[st.name] = ([a.arg for a in st.args.args], ast.fix_missing_locations(ast.copy_location(merged, body[1].value)), st)
             elif isinstance(st, ast.Assign) and len(st.targets) == 1 and isinstance(st.targets[0], ast.Name) and isinstance(st.value, ast.Lambda) \
@@ -869,7 +932,8 @@ def _inline_local_predicates(tree: ast.Module, ref_locals: Optional[Dict[str, Se
                 n_done += t.count
                 left = sum(1 for n_ in ast.walk(outer) if isinstance(n_, ast.Name) and n_.id == name and isinstance(n_.ctx, ast.Load))
                 if left == 0:
-                    outer.body = [st for st in outer.body if st is not defst] or [ast.Pass()]
+                    blk_ = holder.get(id(defst), outer.body)
+                    blk_[:] = [st for st in blk_ if st is not defst] or [ast.copy_location(ast.Pass(), defst)]
     return n_done
 
 
